@@ -419,8 +419,9 @@ type c04Topic struct {
 	delID   int
 	log     []c04Tx
 	tainted string // non-empty: the model lost track (reason); the topic is no longer judged
-	// P2P only: users who unsubscribed, and those of them the peer has invited back since
-	// (known finding p2p-reinvited: the loaded topic then forgets how that user names it)
+	// P2P only: users who unsubscribed, and those of them the peer has invited back since. Violations
+	// met by such a user carry the prefix "p2p-reinvited:" (the loaded topic used to forget how that
+	// user names it: fixed by a257e4a, replay replays/C04/p2p-reinvited-peer-topic-name-empty.json)
 	left, reinvited map[int]bool
 }
 
@@ -769,7 +770,7 @@ func (o *c04Obs) judgeDel(w *wWorld, st *wStep) *kit.Viol {
 	}
 	hard := wantHard && canD
 	if !hard && !canR {
-		// D without R asking for a soft deletion: the statement requires R
+		// D without R asking for a soft deletion: the statement requires R (used to be accepted: fixed by 2a31f65)
 		if v := o.rep(kit.V("soft-delete-without-R", "user %d with mode %v (D but no R) sent the soft delete %s and was answered %d: soft deletion requires read permission", st.User, mode, st.Req, st.code())); v != nil {
 			return v
 		}
@@ -849,6 +850,8 @@ func (o *c04Obs) judgeGetData(w *wWorld, st *wStep) *kit.Viol {
 	if !ok || tp.tainted != "" {
 		return nil
 	}
+	// prefixes name the situation, they excuse nothing: a channel reader spelling the topic grpXXX
+	// (the author used to be disclosed there: fixed by 954eedd), a re-invited P2P participant
 	pfx := ""
 	if at.Chan != strings.HasPrefix(st.Name, "chn") {
 		pfx = "chan-reader-addressing:"
@@ -939,8 +942,11 @@ func (o *c04Obs) judgeGetData(w *wWorld, st *wStep) *kit.Viol {
 		}
 	}
 	o.getJudged++
-	if pfx != "" {
+	if at.Chan != strings.HasPrefix(st.Name, "chn") {
 		o.classes["chan-reader-addressed-as-grp"] = true
+	}
+	if tp.reinvited[u] {
+		o.classes["get-by-reinvited-p2p-peer"] = true
 	}
 	if len(want) < len(all) {
 		o.getCut++
